@@ -35,10 +35,7 @@ ASSUMPTIONS = ['client ids of the logical dataset are distinct (they are dict ke
                'preprocessing functions are pure (the indexed family: x+k, x*k, x+sum(id), duplicate rows, drop first row)',
                'a python set is modelled as a duplicate-free list: only membership and sorted() are ever applied to it',
                'the in-memory dict is modelled as an association list: all iteration goes through sorted(keys)']
-PARTIAL = ['C08_shuffled_pass_visits_each_once is not a Coq theorem here: the shuffled pass is checked on every case '
-           '(two passes, each a permutation of clients()) by the oracle and inside Coq as "some permutation of the model\'s clients()"; '
-           'the permutation property of buffered_shuffle itself is C15_buffered_shuffle_perm',
-           'next() on shuffled_clients() of an EMPTY view never returns (while True over an empty pass); not demanded by the property, not flagged']
+PARTIAL = ['next() on shuffled_clients() of an EMPTY view never returns (while True over an empty pass); not demanded by the property, not flagged']
 CASE_TIMEOUT = 60
 
 PIPES = ['mem', 'sql', 'submem', 'subsql']
@@ -119,7 +116,10 @@ def gen_case(rng, max_clients=6, max_ops=6):
     if r < 0.42:
       bounds = []
       for _b in range(2):
-        bounds.append(None if rng.random() < 0.3 else (rng.choice(universe) if universe and rng.random() < 0.5 else _near(rng, universe)))
+        q = rng.random()
+        # None / the empty id b'' (falsy but a real bound) / an id of the universe / a near neighbour
+        bounds.append(None if q < 0.3 else b'' if q < 0.37 else
+                      (rng.choice(universe) if universe and rng.random() < 0.5 else _near(rng, universe)))
       s, e = bounds
       if s is not None and e is not None and s > e and rng.random() < 0.7:
         s, e = e, s            # mostly proper ranges; 30% of the inverted ones stay inverted
@@ -176,6 +176,10 @@ def _fixed_cases():
       [['slice', a, None], ['slice', hx(b''), hx(b'\xff')]], # second slice must not enlarge
       [['slice', None, hx(b'')]],                            # nothing is below the empty id
       [['slice', hx(b''), hx(b'\x00')]],                     # only the empty id
+      [['slice', None, hx(b'\xff')], ['slice', None, hx(b'')]],   # nested: the NEW stop is the (falsy) empty id
+      [['slice', hx(b'a'), None], ['slice', hx(b''), None]],      # nested: the NEW start is the empty id
+      [['slice', None, hx(b'')], ['slice', None, hx(b'b')]],      # nested: the CURRENT stop is the empty id
+      [['slice', hx(b''), hx(b'')]],
       [['subset', [a, a00]], ['slice', a0, None]],           # slice of subset
       [['slice', a, hx(b'b')], ['subset', [a0, hx(b'ab')]]], # subset of slice
       [['slice', a, hx(b'b')], ['subset', [hx(b'\xff')]]],   # subset outside the slice: refused
@@ -249,17 +253,140 @@ def _dsobs(d):
           'n': len(d), 'meta': meta if meta == meta_a else meta + ' / ' + meta_a}
 
 
-def _stream(it):
+def _end(ex):
+  return 'K' if isinstance(ex, KeyError) else 'X:' + type(ex).__name__ + ': ' + str(ex)[:80]
+
+
+def _stream(it, after=None):
+  """[items, ending]: the (id, dataset) pairs an iterator yields and how it ended ('D' done, 'K'
+  KeyError, 'X:..' other).  `after(k)` runs after the k-th yielded item (interleaved access)."""
   out = []
   try:
     for cid, d in it:
       out.append([hx(cid), _dsobs(d)])
+      if after is not None:
+        after(len(out))
   except Exception as ex:  # pylint: disable=broad-except
-    return [out] + _err(ex)
+    return [out, _end(ex)]
   return [out, 'D']
 
 
-def _observe(fd, universe, reqs, buf, seed):
+def _plain(it, conv, after):
+  out = []
+  try:
+    for x in it:
+      out.append(conv(x))
+      after(len(out))
+  except Exception as ex:  # pylint: disable=broad-except
+    return [out, _end(ex)]
+  return [out, 'D']
+
+
+class RecRng(np.random.RandomState):
+  """RandomState recording what the model needs as its oracle: the Lehmer code of every
+  shuffle(list) and the value of every scalar randint(B) draw."""
+  made = []
+
+  def __init__(self, seed=None):
+    super().__init__(seed)
+    self.codes, self.draws, self.contract = [], [], True
+    RecRng.made.append(self)
+
+  def shuffle(self, x):
+    before = list(x)
+    super().shuffle(x)
+    rem, code = list(before), []
+    for v in list(x):
+      k = next((j for j, u in enumerate(rem) if u is v), None)
+      if k is None:
+        self.contract = False
+        break
+      code.append(k)
+      rem.pop(k)
+    if rem:
+      self.contract = False
+    self.codes.append(code)
+
+  def randint(self, low, high=None, size=None, dtype=int):
+    r = super().randint(low, high, size, dtype)
+    if size is None and high is None:
+      self.draws.append([int(low), int(r)])
+      if not 0 <= int(r) < low:
+        self.contract = False
+    else:
+      self.contract = False
+    return r
+
+
+def _shuffled(fd, buf, seed, count, after=None):
+  """`count` items of shuffled_clients(buf, seed), with the random choices of the RandomState the
+  implementation creates (np.random.RandomState is replaced by the recording subclass meanwhile)."""
+  orig = np.random.RandomState
+  RecRng.made = []
+  np.random.RandomState = RecRng
+  try:
+    out = _stream(itertools.islice(fd.shuffled_clients(buf, seed), count), after)
+  finally:
+    np.random.RandomState = orig
+  made = RecRng.made
+  RecRng.made = []
+  rec = {'n_rng': len(made), 'codes': [c for r in made for c in r.codes],
+         'draws': [d for r in made for d in r.draws], 'contract': all(r.contract for r in made)}
+  return out + [rec]
+
+
+def _interleaved(fd, o, universe, others, buf, seed):
+  """Every lazily-read access path of `fd` once more, but after each yielded item OTHER access paths
+  are used: on fd itself (point lookups, metadata, a fresh partially consumed clients() / client_ids()
+  iterator, a bulk get) and on the related views `others` (root, parent, child).  Returns the outer
+  iterations and whether every probe on fd answered as in the un-interleaved observation `o`."""
+  state = {'k': 0, 'ok': True, 'first_bad': None}
+  nu = len(universe)
+
+  def expect(what, got, want):
+    if got != want and state['ok']:
+      state['ok'] = False
+      state['first_bad'] = f'{what}: {got} instead of {want}'
+
+  def probe(_k):
+    for _ in range(2):
+      j = state['k'] % 7
+      u = (state['k'] // 7 + state['k']) % nu if nu else 0
+      state['k'] += 1
+      i = universe[u] if nu else b'?'
+      if j == 0 and nu:
+        expect(f'get_client({i!r})', _call(lambda: _dsobs(fd.get_client(i))), o['get'][u])
+      elif j == 1 and nu:
+        expect(f'client_size({i!r})', _call(lambda: int(fd.client_size(i))), o['size'][u])
+      elif j == 2:
+        expect('num_clients()', _call(lambda: int(fd.num_clients())), o['num'])
+      elif j == 3:
+        expect('first two of a fresh clients()', _stream(itertools.islice(fd.clients(), 2))[0], o['clients'][0][:2])
+      elif j == 4:
+        expect('first of a fresh client_ids()', _call(lambda: [hx(x) for x in itertools.islice(fd.client_ids(), 1)]),
+               ['V', o['ids'][1][:1]] if o['ids'][0] == 'V' else o['ids'])
+      elif j == 5:
+        for v in others:
+          _call(lambda v=v: int(v.num_clients()))
+          _stream(itertools.islice(v.clients(), 1))
+          _call(lambda v=v: [x for x in itertools.islice(v.client_sizes(), 2)])
+          if nu:
+            _call(lambda v=v: _dsobs(v.get_client(i)))
+      elif j == 6 and nu:
+        _stream(fd.get_clients([i, i]))
+
+  n = o['num'][1] if o['num'][0] == 'V' else 0
+  r = {}
+  r['clients'] = _stream(fd.clients(), probe)
+  r['ids'] = _plain(fd.client_ids(), hx, probe)
+  r['sizes'] = _plain(fd.client_sizes(), lambda kv: [hx(kv[0]), int(kv[1])], probe)
+  r['shuffled'] = _shuffled(fd, buf, seed, n, probe) if n > 0 else [[], 'D', {'n_rng': 0, 'codes': [], 'draws': [], 'contract': True}]
+  r['probes_ok'] = state['ok']
+  r['first_bad'] = state['first_bad']
+  return r
+
+
+def _observe(fd, universe, reqs, buf, seed, others=None):
   o = {}
   o['num'] = _call(lambda: int(fd.num_clients()))
   o['ids'] = _call(lambda: [hx(i) for i in fd.client_ids()])
@@ -269,11 +396,13 @@ def _observe(fd, universe, reqs, buf, seed):
   o['det'] = _stream(fd.clients()) == o['clients'] and _call(lambda: [hx(i) for i in fd.client_ids()]) == o['ids']
   n = o['num'][1] if o['num'][0] == 'V' else 0
   if n > 0:   # two passes of the endless shuffled stream (an empty view has nothing to take)
-    o['shuffled'] = _stream(itertools.islice(fd.shuffled_clients(buf, seed), 2 * n))
+    o['shuffled'] = _shuffled(fd, buf, seed, 2 * n)
   else:
-    o['shuffled'] = [[], 'D']
+    o['shuffled'] = [[], 'D', {'n_rng': 0, 'codes': [], 'draws': [], 'contract': True}]
   o['get'] = [_call(lambda i=i: _dsobs(fd.get_client(i))) for i in universe]
   o['gets'] = [_stream(fd.get_clients(list(r))) for r in reqs]
+  if others is not None:
+    o['inter'] = _interleaved(fd, o, universe, others, buf, seed)
   return o
 
 
@@ -292,11 +421,14 @@ def run(case):
     with sqm.SQLiteFederatedDataBuilder(path) as b:
       b.add_many([(i, _examples(rows)) for i, rows in ds])
     mem = imm.InMemoryFederatedData({i: _examples(rows) for i, rows in ds})
-    sql = sqm.SQLiteFederatedData.new(path)
-    conns.append(sql._connection)  # closed below; the file is removed with the directory
+    sql = sqm.SQLiteFederatedData.new(path)      # the documented way to open a file
+    import sqlite3
+    conn2 = sqlite3.connect(path)
+    sql2 = sqm.SQLiteFederatedData(conn2, sqm.decompress_and_deserialize)   # the direct constructor
+    conns += [getattr(sql, '_connection', None), conn2]  # closed below; the file is removed with the directory
     roots = {'mem': mem, 'sql': sql,
              'submem': fdm.SubsetFederatedData(mem, list(ids)),
-             'subsql': fdm.SubsetFederatedData(sql, set(ids))}
+             'subsql': fdm.SubsetFederatedData(sql2, set(ids))}
     views, before, refused = {}, {}, {}
     for p in PIPES:
       cur = roots[p]
@@ -322,8 +454,17 @@ def run(case):
         views[p].append(cur)
         before[p].append(_observe(cur, universe, reqs, case['buf'], case['seed']))
     # every view again, after all of its descendants exist
-    after = {p: [_observe(v, universe, reqs, case['buf'], case['seed']) for v in views[p]] for p in PIPES}
-    changed = [[p, k] for p in PIPES for k in range(len(views[p])) if before[p][k] != after[p][k]]
+    # (this time with interleaved access: while one path is iterated, others are used on the same
+    # view, on the root, on the parent and on the child)
+    after = {}
+    for p in PIPES:
+      after[p] = []
+      for k, v in enumerate(views[p]):
+        others = [w for w in {id(w): w for w in [views[p][0], views[p][max(k - 1, 0)], views[p][min(k + 1, len(views[p]) - 1)]]}.values()
+                  if w is not v]
+        after[p].append(_observe(v, universe, reqs, case['buf'], case['seed'], others))
+    changed = [[p, k] for p in PIPES for k in range(len(views[p]))
+               if before[p][k] != {f: x for f, x in after[p][k].items() if f != 'inter'}]
     return {'views': after, 'refused': refused, 'changed': changed}
   finally:
     for c in conns:
@@ -412,7 +553,8 @@ def _canon(o):
   c['ids'] = [o['ids'][0], sorted(o['ids'][1])] if o['ids'][0] == 'V' else o['ids']
   c['sizes'] = [o['sizes'][0], sorted(o['sizes'][1])] if o['sizes'][0] == 'V' else o['sizes']
   c['clients'] = [sorted(o['clients'][0], key=lambda kv: kv[0])] + o['clients'][1:]
-  c['shuffled'] = [sorted(o['shuffled'][0], key=lambda kv: kv[0])] + o['shuffled'][1:]
+  c['shuffled'] = [sorted(o['shuffled'][0], key=lambda kv: kv[0]), o['shuffled'][1]]
+  c.pop('inter', None)
   return c
 
 
@@ -460,6 +602,22 @@ def oracle(case, obs):
           sorted(c for c, _ in ps) != sorted(hx(i) for i in vis) or any(d != want.get(unhx(c)) for c, d in ps)
           for ps in passes):
         bad('shuffled-pass', f'{where}: a pass of shuffled_clients() does not visit every client of the view exactly once')
+      it = o.get('inter')
+      if it is not None:
+        plain = {'clients': o['clients'], 'ids': [o['ids'][1], 'D'] if o['ids'][0] == 'V' else o['ids'],
+                 'sizes': [o['sizes'][1], 'D'] if o['sizes'][0] == 'V' else o['sizes'],
+                 'shuffled': [sh[0][:n], sh[1]]}
+        for path in ('clients', 'ids', 'sizes', 'shuffled'):
+          if it[path][:2] != plain[path]:
+            bad('interleaved-iteration-differs',
+                f'{where}: {path} iterated while other access paths are used in between yields '
+                f'{[x[0] if isinstance(x, list) else x for x in it[path][0]]} ending {it[path][1]}, but '
+                f'{[x[0] if isinstance(x, list) else x for x in plain[path][0]]} ending {plain[path][1]} when iterated alone')
+        if not it['probes_ok']:
+          bad('interleaved-iteration-differs', f'{where}: a query made during an iteration answers differently: {it["first_bad"]}')
+      if not sh[2]['contract']:
+        bad('rng-contract', f'{where}: shuffled_clients used its RandomState outside the modelled contract '
+            '(shuffle(list) permutes, randint(buffer_size) in [0, buffer_size))')
       for i, r in zip(universe, o['get']):
         if i in vis and r != ['V', want[i]]:
           bad('get-client', f'{where}: get_client({i!r}) = {r}, expected {want[i]} (client chain {cc} then batch chain {bc})')
@@ -525,21 +683,49 @@ def encode(case, obs):
     end = {'D': 0, 'K': 1}.get(s[1], 2)
     return '(' + fw.clist([f'({ix(c)}, {dobs(d)})' for c, d in items]) + f', {end})'
 
+  B = case['buf']
+
+  def passes(o, n, npass=2):
+    """[(code, draws, items)] for the two recorded passes; a recording of another shape is passed on
+    as it is (the model then disagrees: fail closed)."""
+    items, rec = o['shuffled'][0], o['shuffled'][2]
+    if n == 0:
+      return '[]'
+    per = max(0, n - B)
+    out = []
+    for k in range(npass):
+      code = rec['codes'][k] if k < len(rec['codes']) else []
+      dr = [d[1] if d[0] == B else -B - 1 for d in rec['draws'][k * per:(k + 1) * per]]
+      out.append(f'({fw.natlist(code)}, {fw.zlist(dr)}, ' +
+                 fw.clist([f'({ix(c)}, {dobs(d)})' for c, d in items[k * n:(k + 1) * n]]) + ')')
+    if len(rec['codes']) != npass or len(rec['draws']) != npass * per or rec['n_rng'] != 1:
+      out.append('([], [], [])')
+    return fw.clist(out)
+
   entries = []
   nops = len(case['ops'])
   for p in PIPES:
-    for k in sorted({min(case.get('mid', 0), nops), nops}):
-      o = obs['views'][p][k]
+    todo = [(k, obs['views'][p][k], 2) for k in sorted({min(case.get('mid', 0), nops), nops})]
+    it = obs['views'][p][nops].get('inter')
+    if it is not None:
+      # the final view once more with its INTERLEAVED iterations in place of the plain ones (one shuffled pass)
+      o2 = dict(obs['views'][p][nops])
+      o2['clients'] = it['clients']
+      o2['ids'] = ['V', it['ids'][0]] if it['ids'][1] == 'D' else ['X']
+      o2['sizes'] = ['V', it['sizes'][0]] if it['sizes'][1] == 'D' else ['X']
+      o2['shuffled'] = it['shuffled']
+      todo.append((nops, o2, 1))
+    for k, o, npass in todo:
       n = o['num'][1] if o['num'][0] == 'V' else 0
       v = ('mkV (' + er(o['num'], fw.zlit) + ') (' + er(o['ids'], lambda l: fw.zlist([ix(h) for h in l])) + ') (' +
            er(o['sizes'], lambda l: fw.clist([f'({ix(h)}, {fw.zlit(z)})' for h, z in l])) + ') ' +
            fw.clist([er(r, fw.zlit) for r in o['size']]) + ' ' + stream(o['clients']) + ' ' +
-           fw.clist([f'({ix(c)}, {dobs(d)})' for c, d in o['shuffled'][0][:n]]) + ' ' +
+           passes(o, n, npass) + ' ' +
            fw.clist([er(r, dobs) for r in o['get']]) + ' ' + fw.clist([stream(g) for g in o['gets']]))
       entries.append(f'({COQ_PIPE[p]}, {k}, {fw.blist(obs["refused"][p][:k])}, {v})')
   ds = fw.clist([f'({_B(unhx(i))}, {fw.zlist(rows)})' for i, rows in case['ds']])
   c = (f'mkC08 {ds} {fw.clist([_B(unhx(a)) for a in case["aliens"]])} {fw.clist([_op(o) for o in case["ops"]])} '
-       f'{fw.clist([fw.clist([_B(unhx(i)) for i in r]) for r in case["reqs"]])}')
+       f'{fw.clist([fw.clist([_B(unhx(i)) for i in r]) for r in case["reqs"]])} {B}')
   return f'({c},\n {fw.clist(entries)})'
 
 
